@@ -548,7 +548,7 @@ def check_conversions(s):
     paths = s.fpaths(b, "lerax.compatibility.gym", "gym_space_to_lerax_space")
     handled = {}
     for p in paths:
-        trues = [t for t, v in p.conds if v and isinstance(t, tuple) and t[0] == "call" and t[1] == ("global", "isinstance")]
+        trues = [t for t, v in p.conds if v and isinstance(t, tuple) and t[0] == "call" and t[1] == ("global", "isinstance") and t[2] and t[2][0] == ("param", "space")]
         if p.raised is not None:
             continue
         if len(trues) != 1:
@@ -568,7 +568,7 @@ def check_conversions(s):
             ok = v is not None and ("attr", space, prm) in set(walk(v))
             s.ob("C14.9", f"gym_space_to_lerax_space[{gk}].{prm}", ok, f"parameter `{prm}` is built from space.{prm}", loc, key=f"param-{prm}", detail=show(v or NONE, maxlen=160),
                  necessary_for="equality survives a round trip through the corresponding Gymnasium space")
-    raising_default = [p for p in paths if p.raised is not None and not any(v for t, v in p.conds if isinstance(t, tuple) and t[0] == "call" and t[1] == ("global", "isinstance"))]
+    raising_default = [p for p in paths if p.raised is not None and not any(v for t, v in p.conds if isinstance(t, tuple) and t[0] == "call" and t[1] == ("global", "isinstance") and t[2] and t[2][0] == ("param", "space"))]
     s.ob("C14.9", "gym_space_to_lerax_space", set(handled) == kinds_all - {"AbstractSpace"} and len(raising_default) >= 1,
          "one branch per space kind, everything else raises", loc, key="exhaustive", detail=f"handled {sorted(handled)}; kinds {sorted(kinds_all)}")
     # lerax -> gym
@@ -579,7 +579,7 @@ def check_conversions(s):
     for p in paths:
         if p.raised is not None:
             continue
-        trues = [t for t, v in p.conds if v and isinstance(t, tuple) and t[0] == "call" and t[1] == ("global", "isinstance")]
+        trues = [t for t, v in p.conds if v and isinstance(t, tuple) and t[0] == "call" and t[1] == ("global", "isinstance") and t[2] and t[2][0] == ("param", "space")]
         if len(trues) != 1:
             continue
         lk = trues[0][2][1][1].split(".")[-1]
